@@ -9,6 +9,7 @@
 (*                             response stream                                   *)
 (*   ReadRet off n ok err      application Read                                  *)
 (*   Quiesce sent wdone rread rtotal   the harness waited until nothing moved    *)
+(*   ServerCut                 the server dropped the connection (fault)         *)
 (*   CloseCall / Close / Exited b   Close() called / returned; did the worker    *)
 (*                             goroutine end                                     *)
 (*                             (polling stopped) once responses were released    *)
@@ -51,11 +52,14 @@ TQuiesce == /\ Is("Quiesce") /\ l' = l + 1 /\ ~closed
             /\ UNCHANGED <<wcalled, wdone, sent, rtotal, rread, closed, sid>>
 \* a Write / Read racing with Close may already fail once Close has been CALLED
 TCloseCall == Is("CloseCall") /\ l' = l + 1 /\ closed' = TRUE /\ UNCHANGED <<wcalled, wdone, sent, rtotal, rread, sid>>
+\* fault scenarios (C10): the server drops the connection instead of answering; from then on calls may fail, and they
+\* must RETURN (the driver waits for every Write) - no panic, no wedge
+TServerCut == Is("ServerCut") /\ l' = l + 1 /\ closed' = TRUE /\ UNCHANGED <<wcalled, wdone, sent, rtotal, rread, sid>>
 TClose == Is("Close") /\ l' = l + 1 /\ closed /\ UNCHANGED <<wcalled, wdone, sent, rtotal, rread, closed, sid>>
 \* after Close polling stops (the worker ends); Read fails once drained (the final ReadRet carries the error)
 TExited == Is("Exited") /\ l' = l + 1 /\ closed /\ Trace[l].b /\ Trace[l].read_failed /\ Trace[l].write_failed
            /\ UNCHANGED <<wcalled, wdone, sent, rtotal, rread, closed, sid>>
-TNext == TCloseCall \/ TReset \/ TWriteCall \/ TWriteRet \/ TReq \/ TResp \/ TReadRet \/ TQuiesce \/ TClose \/ TExited
+TNext == TServerCut \/ TCloseCall \/ TReset \/ TWriteCall \/ TWriteRet \/ TReq \/ TResp \/ TReadRet \/ TQuiesce \/ TClose \/ TExited
 TraceSpec == TInit /\ [][TNext]_tvars
 HW == TLCSet(1, IF l - 1 > TLCGet(1) THEN l - 1 ELSE TLCGet(1))
 TraceAccepted == IF TLCGet(1) = Len(Trace) THEN TRUE ELSE PrintT(<<"REJECTED_AFTER", TLCGet(1)>>) /\ FALSE
